@@ -19,7 +19,7 @@ RULE = ("Hypothesis draws a SchemaSpec tree (depth<=3) and wraps a drawn subset 
         "delegate to the wrapped built-in - the plain forwarding class, a class derived from it with its own hooks (the "
         "base class is always exercised first), or, in a quarter of the cases, a class whose hooks have exact keyword-only "
         "signatures without **kwargs; values are conforming, near-miss, perturbed and zoo-injected. Oracle: identical "
-        "repr; identical error multisets (kind, path, parameters), also through a Validator with its own path-holder "
+        "repr, also through Representors of one's own with indent steps 2, 8, 4 used one after the other on the same objects; identical error multisets (kind, path, parameters), also through a Validator with its own path-holder "
         "class; under one RNG script identical generated value that validates; substitution succeeds with identical repr "
         "or fails with the identical SubstitutionError message; a marker keyword given to validate / fake / represent / "
         "substitute reaches every hook call, represent visits every wrapped node exactly once. distinct = canonical JSON "
